@@ -137,7 +137,7 @@ Proof.
   assert (Hjr : j <> root) by (intros ->; apply Hroot; left; reflexivity).
   assert (Hij : i <> j) by (intros ->; apply Hic; left; reflexivity).
   pose proof (step_child o tol root A ps q junk (length q) j nrem rest lp k rem fj c [cidx a; cidx b] lfj i p st pari chi lfi l
-                s k1 fr' skip Hr eq_refl Hcj Hi Hfl Hl01 Hjr Hst Ev) as Hstep.
+                s k1 fr' skip Hr eq_refl Hcj Hi Hfl Hl01 Hjr Hst (num_nodes_ok A (Some i) j lfj fj sj a b Hw0 Hnd) Ev) as Hstep.
   assert (Hnth : nth_error chi l = Some (Some j)) by (apply find_label_sound; exact Hfl).
   assert (Hsame : set_nth chi l (Some j) = chi) by (apply set_nth_same; exact Hnth).
   (* the arena after the visit, whether fresh or cached *)
